@@ -1,15 +1,26 @@
 (* JSON values and the JSON Schema (draft 2020-12) keyword subset that the schema files shipped in
    data/schemas use (model file: definitions only).
 
-   Keyword survey of data/schemas/**/*.json (68 files; the translator harness/gen_schemas.go
-   repeats this survey on every run and fails loudly on anything not listed):
+   Keyword survey of data/schemas/**/*.json (68 files; occurrences): title 1679, const 1013,
+   description 834, $ref 550 (107 local "#/$defs/X", 443 absolute ids, none with a fragment),
+   type 403 (always a single name: string 165, array 127, object 89, integer 10, boolean 10,
+   number 2), items 127, properties 84, $schema 68, $id 68, $defs 68, required 64, calculated 36,
+   format 33 (uuid 27, uri 5, date 1), oneOf 19, pattern 14 (7 distinct texts),
+   recommended 7, anyOf 6, examples 5, patternProperties 4 (2 distinct texts), contentEncoding 2,
+   maxLength 2, minLength 2, enum 1 (ill-typed: the recorded finding).  No additionalProperties,
+   allOf, not, if/then/else, minimum, ... and no boolean schemas occur.
+   The translator harness/gen_schemas.go repeats this survey on every run and FAILS on any
+   keyword, format or regular-expression construct outside the following:
      applicators / assertions modelled:  $ref, type, properties, patternProperties, required, items,
        oneOf, anyOf, const, enum, pattern, format (date, uuid checked; uri annotation), minLength,
-       maxLength;  additionalProperties and allOf are modelled although no shipped file uses them
-     structure:   $id (document root only), $defs
+       maxLength;  additionalProperties, allOf and boolean schemas are modelled although no
+       shipped file uses them
+     structure:   $id (document root only), $defs (document root only)
      annotations (no effect on validation): $schema, title, description, examples, default,
        $comment, contentEncoding, contentMediaType, deprecated, readOnly, writeOnly, and GOBL's
        own "calculated", "recommended"
+     a modelled keyword whose value has the wrong JSON type becomes KMalformed: it has no defined
+       meaning, the validator's verdict is undetermined wherever it would be needed
    Numbers are decimal numerals mantissa * 10^exponent (exact; no floats). *)
 From Coq Require Import List ZArith Strings.Byte String Bool.
 From Verif Require Import Base.Wire Schema.Regex.
